@@ -129,11 +129,21 @@ func (c *FnCtx) bindClause(cl *clause, env *evalEnv, prefix string) *boundClause
 			return
 		}
 		id, ok := call.fun.(*eIdent)
-		if !ok || id.name != "called" || len(call.args) == 0 {
+		if !ok || (id.name != "called" && id.name != "retof") || len(call.args) == 0 {
 			return
 		}
 		fl := &Flag{id: len(c.flags)}
 		fl.callee = exprText(call.args[0])
+		if id.name == "retof" {
+			fl.ret = true
+			f := c.L.findFunc(c.fn.Pkg.Pkg.Path(), fl.callee)
+			if f == nil || f.Signature.Results().Len() != 1 {
+				ferr = fmt.Errorf("retof(%s): need a function of this package with exactly one result", fl.callee)
+				return
+			}
+			fl.retT = f.Signature.Results().At(0).Type()
+			fl.sort = c.sortOf(fl.retT)
+		}
 		for _, a := range call.args[1:] {
 			if _, w := a.(*eWild); w {
 				fl.args = append(fl.args, nil)
@@ -152,10 +162,10 @@ func (c *FnCtx) bindClause(cl *clause, env *evalEnv, prefix string) *boundClause
 		}
 		fl.desc = fmt.Sprintf("%s(%d args)", fl.callee, len(fl.args))
 		// identical event patterns share one flag (so invariants can talk about the ensures' events)
-		key := fl.callee + "(" + strings.Join(fl.argT, " , ") + ")"
+		key := fmt.Sprint(fl.ret) + fl.callee + "(" + strings.Join(fl.argT, " , ") + ")"
 		shared := false
 		for _, o := range c.flags {
-			if o.callee+"("+strings.Join(o.argT, " , ")+")" == key {
+			if fmt.Sprint(o.ret)+o.callee+"("+strings.Join(o.argT, " , ")+")" == key {
 				fl = o
 				shared = true
 				break
@@ -187,9 +197,21 @@ func exprText(e specExpr) string {
 func (c *FnCtx) evCalled(x *eCall, env *evalEnv) *Val {
 	id, ok := c.ss().flagMap[x]
 	if !ok {
-		c.efail("called(...) is only allowed in ensures / invariants (outside nested quantifiers)")
+		c.efail("called(...) / retof(...) is only allowed in ensures / invariants (outside nested quantifiers)")
+	}
+	fl := c.flags[0]
+	for _, f := range c.flags {
+		if f.id == id {
+			fl = f
+		}
 	}
 	t, ok := c.state(env).flags[id]
+	if fl.ret {
+		if !ok {
+			t = c.retInit(fl)
+		}
+		return c.mk(fl.retT, t)
+	}
 	if !ok {
 		t = "false"
 	}
